@@ -55,7 +55,7 @@ def generate(rng, tier):
         last = w.segs[-1]
         if rng.random() < 0.25 and last.end - last.pos > 2:
             cut = rng.randint(last.pos + 1, last.end - 1)
-    return {'source': src, 'backend': rng.choice(['simpath', 'simpath', 'realpath']), 'cut': cut,
+    return {'source': src, 'backend': rng.choice(['simpath', 'simpath', 'realpath']), 'cut': cut, 'pathlib': rng.random() < 0.3,
             'raw_ts': rng.random() < 0.4, 'win_seed': rng.getrandbits(32), 'debug_log': rng.random() < 0.05}
 
 
@@ -157,6 +157,10 @@ def execute(case):
             if with_index:
                 st.put('w.tdms_index', index, real=real)
             path = os.path.join(st.realdir(), 'w.tdms') if real else 'w.tdms'
+            if case.get('pathlib'):
+                import pathlib
+                path = pathlib.Path(path) if real else pathlib.PurePosixPath(path)
+                res.probe('pathlib-path')
             for mode in ('read', 'open', 'read_metadata'):
                 win_rng = random.Random(case['win_seed'])
                 try:
@@ -199,6 +203,9 @@ def execute(case):
             st.remove('w.tdms')
             st.put('only.tdms_index', index, real=real)
             ipath = os.path.join(st.realdir(), 'only.tdms_index') if real else 'only.tdms_index'
+            if case.get('pathlib'):
+                import pathlib
+                ipath = pathlib.Path(ipath) if real else pathlib.PurePosixPath(ipath)
             for kind in ('path', 'stream'):
                 for mode in ('read', 'open', 'read_metadata'):
                     src_ = ipath if kind == 'path' else st.fs.stream('only.tdms_index')
